@@ -33,7 +33,7 @@ Lemma emit_ws_all_blank rs mb p : rs_wf rs -> all_blank (t_ws (fst p)) -> all_bl
 Proof.
   intros (Hn & Hi & Hc) Hw. destruct p as [tok f]. simpl in Hw. unfold emit_ws.
   destruct (f_ignored f).
-  - destruct (mb && negb (contains_byte 10 (t_ws tok)) && negb (is_eof (t_ty tok))).
+  - destruct (mb && negb (has_break (t_ws tok)) && negb (is_eof (t_ty tok))).
     + unfold all_blank. rewrite strip_ascii_blank_app by exact Hn. exact Hw.
     + exact Hw.
   - apply ascii_blank_all_blank.
@@ -100,7 +100,7 @@ Fixpoint no_net (mb : bool) (l : list ftoken) : Prop :=
   match l with
   | [] => True
   | p :: r =>
-      (mb && negb (contains_byte 10 (t_ws (fst p))) && negb (is_eof (t_ty (fst p))) = false)
+      (mb && negb (has_break (t_ws (fst p))) && negb (is_eof (t_ty (fst p))) = false)
       /\ no_net (is_sl_comment (t_ty (fst p))) r
   end.
 
@@ -123,7 +123,149 @@ Lemma recon_ignored_region rs mb p l :
 Proof.
   intros Hp Hl Hn. cbn [recon]. rewrite (recon_ignored_verbatim rs _ l Hl Hn).
   destruct p as [tok f]. cbn [fst snd] in *. unfold emit_ws. rewrite Hp.
-  destruct (mb && negb (contains_byte 10 (t_ws tok)) && negb (is_eof (t_ty tok))).
+  destruct (mb && negb (has_break (t_ws tok)) && negb (is_eof (t_ty tok))).
   - exists (rs_newline rs ++ t_ws tok). split; [reflexivity|right; reflexivity].
   - exists (t_ws tok). split; [reflexivity|left; reflexivity].
 Qed.
+
+(* ------------------------------------------------------------------ *)
+(* C09: every line break that reconstruct itself emits is rs_newline, and nothing else about the
+   output depends on rs_newline.  Pieces: PNl = one emitted line break, PRaw = anything else. *)
+Inductive piece := PNl | PRaw (b : bytes).
+
+Definition render (nl : bytes) (ps : list piece) : bytes :=
+  concat (map (fun p => match p with PNl => nl | PRaw b => b end) ps).
+
+Definition emit_ws_pieces (rs : rsettings) (must_break : bool) (p : ftoken) : list piece :=
+  let (tok, f) := p in
+  let eof := is_eof (t_ty tok) in
+  if f_ignored f then
+    (if must_break && negb (has_break (t_ws tok)) && negb eof then [PNl] else []) ++ [PRaw (t_ws tok)]
+  else
+    let nls := if must_break && (f_nl f =? 0) && negb eof then 1 else f_nl f in
+    nrepeat nls [PNl] ++ [PRaw (nrepeat (f_ind f) (rs_indent rs) ++ nrepeat (f_cont f) (rs_cont rs) ++ nrepeat (f_sp f) [32])].
+
+Fixpoint recon_pieces (rs : rsettings) (must_break : bool) (l : list ftoken) : list piece :=
+  match l with
+  | [] => []
+  | p :: r => emit_ws_pieces rs must_break p ++ [PRaw (t_content (fst p))]
+              ++ recon_pieces rs (is_sl_comment (t_ty (fst p))) r
+  end.
+
+Lemma render_app nl a b : render nl (a ++ b) = render nl a ++ render nl b.
+Proof. unfold render. rewrite map_app, concat_app. reflexivity. Qed.
+
+Lemma render_repeat_nl nl n : render nl (repeat_app n [PNl]) = repeat_app n nl.
+Proof. induction n as [|n IH]; [reflexivity|]. cbn [repeat_app]. rewrite render_app, IH. cbn. rewrite app_nil_r. reflexivity. Qed.
+
+Lemma emit_ws_render rs mb p : emit_ws rs mb p = render (rs_newline rs) (emit_ws_pieces rs mb p).
+Proof.
+  destruct p as [tok f]. unfold emit_ws, emit_ws_pieces. destruct (f_ignored f).
+  - rewrite render_app. destruct (mb && negb (has_break (t_ws tok)) && negb (is_eof (t_ty tok))); cbn; rewrite !app_nil_r; reflexivity.
+  - rewrite render_app. unfold nrepeat. rewrite render_repeat_nl. cbn. rewrite app_nil_r. reflexivity.
+Qed.
+
+Lemma recon_render rs mb l : recon rs mb l = render (rs_newline rs) (recon_pieces rs mb l).
+Proof.
+  revert mb. induction l as [|p r IH]; intros mb; [reflexivity|].
+  cbn [recon recon_pieces]. rewrite !render_app, <- emit_ws_render, <- IH. cbn. rewrite app_nil_r. reflexivity.
+Qed.
+
+Definition with_newline (rs : rsettings) (nl : bytes) : rsettings := mkRS nl (rs_indent rs) (rs_cont rs).
+
+Lemma recon_pieces_newline_indep rs nl mb l : recon_pieces (with_newline rs nl) mb l = recon_pieces rs mb l.
+Proof.
+  revert mb. induction l as [|[tok f] r IH]; intros mb; [reflexivity|].
+  cbn [recon_pieces]. rewrite IH. f_equal.
+Qed.
+
+(* the crlf output is the lf output with every EMITTED terminator substituted, for the same tokens *)
+Theorem recon_crlf_is_subst rs mb l :
+  recon (with_newline rs [13; 10]) mb l = render [13; 10] (recon_pieces rs mb l)
+  /\ recon (with_newline rs [10]) mb l = render [10] (recon_pieces rs mb l).
+Proof. split; rewrite recon_render, recon_pieces_newline_indep; reflexivity. Qed.
+
+(* ------------------------------------------------------------------ *)
+(* C08 / C10: the shape of the whitespace emitted for a token the formatter decides *)
+
+Lemma repeat_app_add {A} n m (s : list A) : repeat_app n s ++ repeat_app m s = repeat_app (n + m) s.
+Proof. induction n as [|n IH]; [reflexivity|]. cbn [repeat_app Nat.add]. rewrite <- app_assoc, IH. reflexivity. Qed.
+
+Lemma repeat_app_mul {A} n m (s : list A) : repeat_app n (repeat_app m s) = repeat_app (n * m) s.
+Proof. induction n as [|n IH]; [reflexivity|]. cbn [repeat_app Nat.mul]. rewrite IH. apply repeat_app_add. Qed.
+
+Lemma nrepeat_nrepeat {A} (a b : N) (s : list A) : nrepeat a (nrepeat b s) = nrepeat (a * b) s.
+Proof. unfold nrepeat. rewrite N2Nat.inj_mul. apply repeat_app_mul. Qed.
+
+Lemma nrepeat_add {A} (a b : N) (s : list A) : nrepeat a s ++ nrepeat b s = nrepeat (a + b) s.
+Proof. unfold nrepeat. rewrite N2Nat.inj_add. apply repeat_app_add. Qed.
+
+Lemma nrepeat_0 {A} (s : list A) : nrepeat 0 s = [].
+Proof. reflexivity. Qed.
+
+(* a token that starts a physical line: line breaks, then a whole number of indentation units,
+   nothing else (no trailing spaces before the content, no tab unless hard tabs) *)
+Theorem emit_ws_line_start crlf tabs iw cw tok f :
+  f_ignored f = false -> f_sp f = 0 -> 0 < f_nl f ->
+  emit_ws (rs_new crlf tabs iw cw) false (tok, f)
+  = nrepeat (f_nl f) (if crlf then [13; 10] else [10])
+    ++ nrepeat (f_ind f * iw + f_cont f * cw) (if tabs then [9] else [32]).
+Proof.
+  intros I S Hn. unfold emit_ws. rewrite I, S. cbn [andb]. unfold rs_new. cbn [rs_newline rs_indent rs_cont].
+  rewrite nrepeat_0, app_nil_r, !nrepeat_nrepeat, nrepeat_add. reflexivity.
+Qed.
+
+(* a token that continues a physical line: only spaces *)
+Theorem emit_ws_continue rs tok f :
+  f_ignored f = false -> f_nl f = 0 -> f_ind f = 0 -> f_cont f = 0 ->
+  emit_ws rs false (tok, f) = nrepeat (f_sp f) [32].
+Proof.
+  intros I Hn Hi Hc. unfold emit_ws. rewrite I, Hn, Hi, Hc. cbn [andb]. rewrite !nrepeat_0. reflexivity.
+Qed.
+
+(* C10: tabs versus spaces. Expanding each tab of the hard-tab indentation to tw spaces gives the
+   soft-tab indentation, provided the u8 product ci*tw does not saturate. *)
+Definition expand_tabs (tw : N) (l : bytes) : bytes :=
+  flat_map (fun b => if b =? 9 then nrepeat tw [32] else [b]) l.
+
+Lemma expand_tabs_app tw a b : expand_tabs tw (a ++ b) = expand_tabs tw a ++ expand_tabs tw b.
+Proof. unfold expand_tabs. apply flat_map_app. Qed.
+
+Lemma expand_tabs_repeat_tab tw n : expand_tabs tw (nrepeat n [9]) = nrepeat (n * tw) [32].
+Proof.
+  rewrite <- nrepeat_nrepeat. unfold nrepeat. generalize (N.to_nat n). intros k.
+  induction k as [|k IH]; [reflexivity|]. cbn [repeat_app]. rewrite expand_tabs_app, IH. cbn. rewrite app_nil_r. reflexivity.
+Qed.
+
+Lemma expand_tabs_no_tab tw l : forallb (fun b => negb (b =? 9)) l = true -> expand_tabs tw l = l.
+Proof.
+  induction l as [|b t IH]; [reflexivity|]. cbn [forallb]. rewrite andb_true_iff. intros [Hb Ht].
+  cbn. destruct (b =? 9); [discriminate|]. cbn. f_equal. apply IH, Ht.
+Qed.
+
+Theorem indentation_tabs_vs_spaces crlf tw ci ind cont :
+  ci * tw <= 255 ->
+  expand_tabs tw (nrepeat ind (rs_indent (rs_of_config crlf true tw ci)) ++ nrepeat cont (rs_cont (rs_of_config crlf true tw ci)))
+  = nrepeat ind (rs_indent (rs_of_config crlf false tw ci)) ++ nrepeat cont (rs_cont (rs_of_config crlf false tw ci)).
+Proof.
+  intros Hs. unfold rs_of_config, rs_new, u8_sat_mul. cbn [rs_indent rs_cont].
+  rewrite N.min_r by exact Hs.
+  rewrite expand_tabs_app, !nrepeat_nrepeat, !expand_tabs_repeat_tab. f_equal; f_equal; lia.
+Qed.
+
+(* each line's indentation is (levels + ci * continuations) units of tab_width spaces / one tab *)
+Theorem indentation_units crlf tabs tw ci ind cont :
+  ci * tw <= 255 ->
+  nrepeat ind (rs_indent (rs_of_config crlf tabs tw ci)) ++ nrepeat cont (rs_cont (rs_of_config crlf tabs tw ci))
+  = nrepeat (ind + ci * cont) (if tabs then [9] else nrepeat tw [32]).
+Proof.
+  intros Hs. unfold rs_of_config, rs_new, u8_sat_mul. destruct tabs; cbn [rs_indent rs_cont].
+  - rewrite !nrepeat_nrepeat, nrepeat_add. f_equal. lia.
+  - rewrite N.min_r by exact Hs. rewrite !nrepeat_nrepeat, nrepeat_add. f_equal. lia.
+Qed.
+
+(* F13: beyond the u8 range the continuation is 255 spaces, in general not a whole number of units *)
+Lemma indentation_units_refuted_saturation :
+  exists tw ci, 255 < ci * tw /\
+    length (rs_cont (rs_of_config false false tw ci)) = 255%nat /\ (255 mod tw <> 0).
+Proof. exists 7, 40. split; [reflexivity|]. split; [vm_compute; reflexivity|]. vm_compute. discriminate. Qed.
